@@ -5,7 +5,7 @@ from . import build
 NPROC = int(os.environ.get("VERIF_JOBS", "16"))
 
 def hx(b):
-    if isinstance(b, str): b = b.encode()
+    if isinstance(b, str): b = b.encode("utf-8", "surrogateescape")
     return b.hex()
 
 def req(**kw):
@@ -89,7 +89,7 @@ DEFAULT_CONFIG_PATH = "/root/.hranoprovod/config"
 def b_(x):
     if isinstance(x, bytes): return x
     if isinstance(x, int): return str(x).encode()
-    return x.encode()
+    return x.encode("utf-8", "surrogateescape")
 
 def time_str(t):
     """(y,m,d,sod,off) -> model encoding"""
